@@ -43,7 +43,8 @@ Inductive frame :=
 | FOp (o : op)
 | FTakeNext                   (* the pending call of TakeNextAction() after a callback returned *)
 | FDiscLog (did run : N)      (* DiscoveryComplete loop: callback of discovery request did runs *)
-| FDiscDone.                  (* DiscoveryComplete: m_discovery_callbacks.clear(); TakeNextAction() *)
+| FDiscDone                   (* DiscoveryComplete: m_discovery_callbacks.clear(); TakeNextAction() *)
+| FDestroy.                   (* ~QueueingRDMController: the loop that fails what is (still) queued *)
 
 Record comp := mkComp {
   c_id : N;
@@ -87,67 +88,70 @@ Record st := mkSt {
   g_trace : list tev;
   g_from : list N;
   h_open : N;
-  g_rj : N
+  g_rj : N;
+  h_destroying : bool
 }.
 
 Definition set_s_max (v : N) (s : st) : st :=
-  mkSt v (s_discov s) (s_queue s) (s_pending s) (s_active s) (s_resp s) (s_nframes s) (s_pdisc s) (s_rdisc s) (m_out s) (m_dout s) (m_script s) (m_dscript s) (m_nrun s) (h_next s) (h_ndid s) (h_paused s) (g_parts s) (g_conc s) (g_psends s) (g_fatal s) (g_accepted s) (g_done s) (g_runs s) (g_ddone s) (g_trace s) (g_from s) (h_open s) (g_rj s).
+  mkSt v (s_discov s) (s_queue s) (s_pending s) (s_active s) (s_resp s) (s_nframes s) (s_pdisc s) (s_rdisc s) (m_out s) (m_dout s) (m_script s) (m_dscript s) (m_nrun s) (h_next s) (h_ndid s) (h_paused s) (g_parts s) (g_conc s) (g_psends s) (g_fatal s) (g_accepted s) (g_done s) (g_runs s) (g_ddone s) (g_trace s) (g_from s) (h_open s) (g_rj s) (h_destroying s).
 Definition set_s_discov (v : bool) (s : st) : st :=
-  mkSt (s_max s) v (s_queue s) (s_pending s) (s_active s) (s_resp s) (s_nframes s) (s_pdisc s) (s_rdisc s) (m_out s) (m_dout s) (m_script s) (m_dscript s) (m_nrun s) (h_next s) (h_ndid s) (h_paused s) (g_parts s) (g_conc s) (g_psends s) (g_fatal s) (g_accepted s) (g_done s) (g_runs s) (g_ddone s) (g_trace s) (g_from s) (h_open s) (g_rj s).
+  mkSt (s_max s) v (s_queue s) (s_pending s) (s_active s) (s_resp s) (s_nframes s) (s_pdisc s) (s_rdisc s) (m_out s) (m_dout s) (m_script s) (m_dscript s) (m_nrun s) (h_next s) (h_ndid s) (h_paused s) (g_parts s) (g_conc s) (g_psends s) (g_fatal s) (g_accepted s) (g_done s) (g_runs s) (g_ddone s) (g_trace s) (g_from s) (h_open s) (g_rj s) (h_destroying s).
 Definition set_s_queue (v : list (N * list op)) (s : st) : st :=
-  mkSt (s_max s) (s_discov s) v (s_pending s) (s_active s) (s_resp s) (s_nframes s) (s_pdisc s) (s_rdisc s) (m_out s) (m_dout s) (m_script s) (m_dscript s) (m_nrun s) (h_next s) (h_ndid s) (h_paused s) (g_parts s) (g_conc s) (g_psends s) (g_fatal s) (g_accepted s) (g_done s) (g_runs s) (g_ddone s) (g_trace s) (g_from s) (h_open s) (g_rj s).
+  mkSt (s_max s) (s_discov s) v (s_pending s) (s_active s) (s_resp s) (s_nframes s) (s_pdisc s) (s_rdisc s) (m_out s) (m_dout s) (m_script s) (m_dscript s) (m_nrun s) (h_next s) (h_ndid s) (h_paused s) (g_parts s) (g_conc s) (g_psends s) (g_fatal s) (g_accepted s) (g_done s) (g_runs s) (g_ddone s) (g_trace s) (g_from s) (h_open s) (g_rj s) (h_destroying s).
 Definition set_s_pending (v : bool) (s : st) : st :=
-  mkSt (s_max s) (s_discov s) (s_queue s) v (s_active s) (s_resp s) (s_nframes s) (s_pdisc s) (s_rdisc s) (m_out s) (m_dout s) (m_script s) (m_dscript s) (m_nrun s) (h_next s) (h_ndid s) (h_paused s) (g_parts s) (g_conc s) (g_psends s) (g_fatal s) (g_accepted s) (g_done s) (g_runs s) (g_ddone s) (g_trace s) (g_from s) (h_open s) (g_rj s).
+  mkSt (s_max s) (s_discov s) (s_queue s) v (s_active s) (s_resp s) (s_nframes s) (s_pdisc s) (s_rdisc s) (m_out s) (m_dout s) (m_script s) (m_dscript s) (m_nrun s) (h_next s) (h_ndid s) (h_paused s) (g_parts s) (g_conc s) (g_psends s) (g_fatal s) (g_accepted s) (g_done s) (g_runs s) (g_ddone s) (g_trace s) (g_from s) (h_open s) (g_rj s) (h_destroying s).
 Definition set_s_active (v : bool) (s : st) : st :=
-  mkSt (s_max s) (s_discov s) (s_queue s) (s_pending s) v (s_resp s) (s_nframes s) (s_pdisc s) (s_rdisc s) (m_out s) (m_dout s) (m_script s) (m_dscript s) (m_nrun s) (h_next s) (h_ndid s) (h_paused s) (g_parts s) (g_conc s) (g_psends s) (g_fatal s) (g_accepted s) (g_done s) (g_runs s) (g_ddone s) (g_trace s) (g_from s) (h_open s) (g_rj s).
+  mkSt (s_max s) (s_discov s) (s_queue s) (s_pending s) v (s_resp s) (s_nframes s) (s_pdisc s) (s_rdisc s) (m_out s) (m_dout s) (m_script s) (m_dscript s) (m_nrun s) (h_next s) (h_ndid s) (h_paused s) (g_parts s) (g_conc s) (g_psends s) (g_fatal s) (g_accepted s) (g_done s) (g_runs s) (g_ddone s) (g_trace s) (g_from s) (h_open s) (g_rj s) (h_destroying s).
 Definition set_s_resp (v : option resp) (s : st) : st :=
-  mkSt (s_max s) (s_discov s) (s_queue s) (s_pending s) (s_active s) v (s_nframes s) (s_pdisc s) (s_rdisc s) (m_out s) (m_dout s) (m_script s) (m_dscript s) (m_nrun s) (h_next s) (h_ndid s) (h_paused s) (g_parts s) (g_conc s) (g_psends s) (g_fatal s) (g_accepted s) (g_done s) (g_runs s) (g_ddone s) (g_trace s) (g_from s) (h_open s) (g_rj s).
+  mkSt (s_max s) (s_discov s) (s_queue s) (s_pending s) (s_active s) v (s_nframes s) (s_pdisc s) (s_rdisc s) (m_out s) (m_dout s) (m_script s) (m_dscript s) (m_nrun s) (h_next s) (h_ndid s) (h_paused s) (g_parts s) (g_conc s) (g_psends s) (g_fatal s) (g_accepted s) (g_done s) (g_runs s) (g_ddone s) (g_trace s) (g_from s) (h_open s) (g_rj s) (h_destroying s).
 Definition set_s_nframes (v : N) (s : st) : st :=
-  mkSt (s_max s) (s_discov s) (s_queue s) (s_pending s) (s_active s) (s_resp s) v (s_pdisc s) (s_rdisc s) (m_out s) (m_dout s) (m_script s) (m_dscript s) (m_nrun s) (h_next s) (h_ndid s) (h_paused s) (g_parts s) (g_conc s) (g_psends s) (g_fatal s) (g_accepted s) (g_done s) (g_runs s) (g_ddone s) (g_trace s) (g_from s) (h_open s) (g_rj s).
+  mkSt (s_max s) (s_discov s) (s_queue s) (s_pending s) (s_active s) (s_resp s) v (s_pdisc s) (s_rdisc s) (m_out s) (m_dout s) (m_script s) (m_dscript s) (m_nrun s) (h_next s) (h_ndid s) (h_paused s) (g_parts s) (g_conc s) (g_psends s) (g_fatal s) (g_accepted s) (g_done s) (g_runs s) (g_ddone s) (g_trace s) (g_from s) (h_open s) (g_rj s) (h_destroying s).
 Definition set_s_pdisc (v : list (bool * N * list op)) (s : st) : st :=
-  mkSt (s_max s) (s_discov s) (s_queue s) (s_pending s) (s_active s) (s_resp s) (s_nframes s) v (s_rdisc s) (m_out s) (m_dout s) (m_script s) (m_dscript s) (m_nrun s) (h_next s) (h_ndid s) (h_paused s) (g_parts s) (g_conc s) (g_psends s) (g_fatal s) (g_accepted s) (g_done s) (g_runs s) (g_ddone s) (g_trace s) (g_from s) (h_open s) (g_rj s).
+  mkSt (s_max s) (s_discov s) (s_queue s) (s_pending s) (s_active s) (s_resp s) (s_nframes s) v (s_rdisc s) (m_out s) (m_dout s) (m_script s) (m_dscript s) (m_nrun s) (h_next s) (h_ndid s) (h_paused s) (g_parts s) (g_conc s) (g_psends s) (g_fatal s) (g_accepted s) (g_done s) (g_runs s) (g_ddone s) (g_trace s) (g_from s) (h_open s) (g_rj s) (h_destroying s).
 Definition set_s_rdisc (v : list (N * option (list op))) (s : st) : st :=
-  mkSt (s_max s) (s_discov s) (s_queue s) (s_pending s) (s_active s) (s_resp s) (s_nframes s) (s_pdisc s) v (m_out s) (m_dout s) (m_script s) (m_dscript s) (m_nrun s) (h_next s) (h_ndid s) (h_paused s) (g_parts s) (g_conc s) (g_psends s) (g_fatal s) (g_accepted s) (g_done s) (g_runs s) (g_ddone s) (g_trace s) (g_from s) (h_open s) (g_rj s).
+  mkSt (s_max s) (s_discov s) (s_queue s) (s_pending s) (s_active s) (s_resp s) (s_nframes s) (s_pdisc s) v (m_out s) (m_dout s) (m_script s) (m_dscript s) (m_nrun s) (h_next s) (h_ndid s) (h_paused s) (g_parts s) (g_conc s) (g_psends s) (g_fatal s) (g_accepted s) (g_done s) (g_runs s) (g_ddone s) (g_trace s) (g_from s) (h_open s) (g_rj s) (h_destroying s).
 Definition set_m_out (v : list N) (s : st) : st :=
-  mkSt (s_max s) (s_discov s) (s_queue s) (s_pending s) (s_active s) (s_resp s) (s_nframes s) (s_pdisc s) (s_rdisc s) v (m_dout s) (m_script s) (m_dscript s) (m_nrun s) (h_next s) (h_ndid s) (h_paused s) (g_parts s) (g_conc s) (g_psends s) (g_fatal s) (g_accepted s) (g_done s) (g_runs s) (g_ddone s) (g_trace s) (g_from s) (h_open s) (g_rj s).
+  mkSt (s_max s) (s_discov s) (s_queue s) (s_pending s) (s_active s) (s_resp s) (s_nframes s) (s_pdisc s) (s_rdisc s) v (m_dout s) (m_script s) (m_dscript s) (m_nrun s) (h_next s) (h_ndid s) (h_paused s) (g_parts s) (g_conc s) (g_psends s) (g_fatal s) (g_accepted s) (g_done s) (g_runs s) (g_ddone s) (g_trace s) (g_from s) (h_open s) (g_rj s) (h_destroying s).
 Definition set_m_dout (v : list N) (s : st) : st :=
-  mkSt (s_max s) (s_discov s) (s_queue s) (s_pending s) (s_active s) (s_resp s) (s_nframes s) (s_pdisc s) (s_rdisc s) (m_out s) v (m_script s) (m_dscript s) (m_nrun s) (h_next s) (h_ndid s) (h_paused s) (g_parts s) (g_conc s) (g_psends s) (g_fatal s) (g_accepted s) (g_done s) (g_runs s) (g_ddone s) (g_trace s) (g_from s) (h_open s) (g_rj s).
+  mkSt (s_max s) (s_discov s) (s_queue s) (s_pending s) (s_active s) (s_resp s) (s_nframes s) (s_pdisc s) (s_rdisc s) (m_out s) v (m_script s) (m_dscript s) (m_nrun s) (h_next s) (h_ndid s) (h_paused s) (g_parts s) (g_conc s) (g_psends s) (g_fatal s) (g_accepted s) (g_done s) (g_runs s) (g_ddone s) (g_trace s) (g_from s) (h_open s) (g_rj s) (h_destroying s).
 Definition set_m_script (v : list mitem) (s : st) : st :=
-  mkSt (s_max s) (s_discov s) (s_queue s) (s_pending s) (s_active s) (s_resp s) (s_nframes s) (s_pdisc s) (s_rdisc s) (m_out s) (m_dout s) v (m_dscript s) (m_nrun s) (h_next s) (h_ndid s) (h_paused s) (g_parts s) (g_conc s) (g_psends s) (g_fatal s) (g_accepted s) (g_done s) (g_runs s) (g_ddone s) (g_trace s) (g_from s) (h_open s) (g_rj s).
+  mkSt (s_max s) (s_discov s) (s_queue s) (s_pending s) (s_active s) (s_resp s) (s_nframes s) (s_pdisc s) (s_rdisc s) (m_out s) (m_dout s) v (m_dscript s) (m_nrun s) (h_next s) (h_ndid s) (h_paused s) (g_parts s) (g_conc s) (g_psends s) (g_fatal s) (g_accepted s) (g_done s) (g_runs s) (g_ddone s) (g_trace s) (g_from s) (h_open s) (g_rj s) (h_destroying s).
 Definition set_m_dscript (v : list bool) (s : st) : st :=
-  mkSt (s_max s) (s_discov s) (s_queue s) (s_pending s) (s_active s) (s_resp s) (s_nframes s) (s_pdisc s) (s_rdisc s) (m_out s) (m_dout s) (m_script s) v (m_nrun s) (h_next s) (h_ndid s) (h_paused s) (g_parts s) (g_conc s) (g_psends s) (g_fatal s) (g_accepted s) (g_done s) (g_runs s) (g_ddone s) (g_trace s) (g_from s) (h_open s) (g_rj s).
+  mkSt (s_max s) (s_discov s) (s_queue s) (s_pending s) (s_active s) (s_resp s) (s_nframes s) (s_pdisc s) (s_rdisc s) (m_out s) (m_dout s) (m_script s) v (m_nrun s) (h_next s) (h_ndid s) (h_paused s) (g_parts s) (g_conc s) (g_psends s) (g_fatal s) (g_accepted s) (g_done s) (g_runs s) (g_ddone s) (g_trace s) (g_from s) (h_open s) (g_rj s) (h_destroying s).
 Definition set_m_nrun (v : N) (s : st) : st :=
-  mkSt (s_max s) (s_discov s) (s_queue s) (s_pending s) (s_active s) (s_resp s) (s_nframes s) (s_pdisc s) (s_rdisc s) (m_out s) (m_dout s) (m_script s) (m_dscript s) v (h_next s) (h_ndid s) (h_paused s) (g_parts s) (g_conc s) (g_psends s) (g_fatal s) (g_accepted s) (g_done s) (g_runs s) (g_ddone s) (g_trace s) (g_from s) (h_open s) (g_rj s).
+  mkSt (s_max s) (s_discov s) (s_queue s) (s_pending s) (s_active s) (s_resp s) (s_nframes s) (s_pdisc s) (s_rdisc s) (m_out s) (m_dout s) (m_script s) (m_dscript s) v (h_next s) (h_ndid s) (h_paused s) (g_parts s) (g_conc s) (g_psends s) (g_fatal s) (g_accepted s) (g_done s) (g_runs s) (g_ddone s) (g_trace s) (g_from s) (h_open s) (g_rj s) (h_destroying s).
 Definition set_h_next (v : N) (s : st) : st :=
-  mkSt (s_max s) (s_discov s) (s_queue s) (s_pending s) (s_active s) (s_resp s) (s_nframes s) (s_pdisc s) (s_rdisc s) (m_out s) (m_dout s) (m_script s) (m_dscript s) (m_nrun s) v (h_ndid s) (h_paused s) (g_parts s) (g_conc s) (g_psends s) (g_fatal s) (g_accepted s) (g_done s) (g_runs s) (g_ddone s) (g_trace s) (g_from s) (h_open s) (g_rj s).
+  mkSt (s_max s) (s_discov s) (s_queue s) (s_pending s) (s_active s) (s_resp s) (s_nframes s) (s_pdisc s) (s_rdisc s) (m_out s) (m_dout s) (m_script s) (m_dscript s) (m_nrun s) v (h_ndid s) (h_paused s) (g_parts s) (g_conc s) (g_psends s) (g_fatal s) (g_accepted s) (g_done s) (g_runs s) (g_ddone s) (g_trace s) (g_from s) (h_open s) (g_rj s) (h_destroying s).
 Definition set_h_ndid (v : N) (s : st) : st :=
-  mkSt (s_max s) (s_discov s) (s_queue s) (s_pending s) (s_active s) (s_resp s) (s_nframes s) (s_pdisc s) (s_rdisc s) (m_out s) (m_dout s) (m_script s) (m_dscript s) (m_nrun s) (h_next s) v (h_paused s) (g_parts s) (g_conc s) (g_psends s) (g_fatal s) (g_accepted s) (g_done s) (g_runs s) (g_ddone s) (g_trace s) (g_from s) (h_open s) (g_rj s).
+  mkSt (s_max s) (s_discov s) (s_queue s) (s_pending s) (s_active s) (s_resp s) (s_nframes s) (s_pdisc s) (s_rdisc s) (m_out s) (m_dout s) (m_script s) (m_dscript s) (m_nrun s) (h_next s) v (h_paused s) (g_parts s) (g_conc s) (g_psends s) (g_fatal s) (g_accepted s) (g_done s) (g_runs s) (g_ddone s) (g_trace s) (g_from s) (h_open s) (g_rj s) (h_destroying s).
 Definition set_h_paused (v : bool) (s : st) : st :=
-  mkSt (s_max s) (s_discov s) (s_queue s) (s_pending s) (s_active s) (s_resp s) (s_nframes s) (s_pdisc s) (s_rdisc s) (m_out s) (m_dout s) (m_script s) (m_dscript s) (m_nrun s) (h_next s) (h_ndid s) v (g_parts s) (g_conc s) (g_psends s) (g_fatal s) (g_accepted s) (g_done s) (g_runs s) (g_ddone s) (g_trace s) (g_from s) (h_open s) (g_rj s).
+  mkSt (s_max s) (s_discov s) (s_queue s) (s_pending s) (s_active s) (s_resp s) (s_nframes s) (s_pdisc s) (s_rdisc s) (m_out s) (m_dout s) (m_script s) (m_dscript s) (m_nrun s) (h_next s) (h_ndid s) v (g_parts s) (g_conc s) (g_psends s) (g_fatal s) (g_accepted s) (g_done s) (g_runs s) (g_ddone s) (g_trace s) (g_from s) (h_open s) (g_rj s) (h_destroying s).
 Definition set_g_parts (v : list (list N)) (s : st) : st :=
-  mkSt (s_max s) (s_discov s) (s_queue s) (s_pending s) (s_active s) (s_resp s) (s_nframes s) (s_pdisc s) (s_rdisc s) (m_out s) (m_dout s) (m_script s) (m_dscript s) (m_nrun s) (h_next s) (h_ndid s) (h_paused s) v (g_conc s) (g_psends s) (g_fatal s) (g_accepted s) (g_done s) (g_runs s) (g_ddone s) (g_trace s) (g_from s) (h_open s) (g_rj s).
+  mkSt (s_max s) (s_discov s) (s_queue s) (s_pending s) (s_active s) (s_resp s) (s_nframes s) (s_pdisc s) (s_rdisc s) (m_out s) (m_dout s) (m_script s) (m_dscript s) (m_nrun s) (h_next s) (h_ndid s) (h_paused s) v (g_conc s) (g_psends s) (g_fatal s) (g_accepted s) (g_done s) (g_runs s) (g_ddone s) (g_trace s) (g_from s) (h_open s) (g_rj s) (h_destroying s).
 Definition set_g_conc (v : N) (s : st) : st :=
-  mkSt (s_max s) (s_discov s) (s_queue s) (s_pending s) (s_active s) (s_resp s) (s_nframes s) (s_pdisc s) (s_rdisc s) (m_out s) (m_dout s) (m_script s) (m_dscript s) (m_nrun s) (h_next s) (h_ndid s) (h_paused s) (g_parts s) v (g_psends s) (g_fatal s) (g_accepted s) (g_done s) (g_runs s) (g_ddone s) (g_trace s) (g_from s) (h_open s) (g_rj s).
+  mkSt (s_max s) (s_discov s) (s_queue s) (s_pending s) (s_active s) (s_resp s) (s_nframes s) (s_pdisc s) (s_rdisc s) (m_out s) (m_dout s) (m_script s) (m_dscript s) (m_nrun s) (h_next s) (h_ndid s) (h_paused s) (g_parts s) v (g_psends s) (g_fatal s) (g_accepted s) (g_done s) (g_runs s) (g_ddone s) (g_trace s) (g_from s) (h_open s) (g_rj s) (h_destroying s).
 Definition set_g_psends (v : N) (s : st) : st :=
-  mkSt (s_max s) (s_discov s) (s_queue s) (s_pending s) (s_active s) (s_resp s) (s_nframes s) (s_pdisc s) (s_rdisc s) (m_out s) (m_dout s) (m_script s) (m_dscript s) (m_nrun s) (h_next s) (h_ndid s) (h_paused s) (g_parts s) (g_conc s) v (g_fatal s) (g_accepted s) (g_done s) (g_runs s) (g_ddone s) (g_trace s) (g_from s) (h_open s) (g_rj s).
+  mkSt (s_max s) (s_discov s) (s_queue s) (s_pending s) (s_active s) (s_resp s) (s_nframes s) (s_pdisc s) (s_rdisc s) (m_out s) (m_dout s) (m_script s) (m_dscript s) (m_nrun s) (h_next s) (h_ndid s) (h_paused s) (g_parts s) (g_conc s) v (g_fatal s) (g_accepted s) (g_done s) (g_runs s) (g_ddone s) (g_trace s) (g_from s) (h_open s) (g_rj s) (h_destroying s).
 Definition set_g_fatal (v : bool) (s : st) : st :=
-  mkSt (s_max s) (s_discov s) (s_queue s) (s_pending s) (s_active s) (s_resp s) (s_nframes s) (s_pdisc s) (s_rdisc s) (m_out s) (m_dout s) (m_script s) (m_dscript s) (m_nrun s) (h_next s) (h_ndid s) (h_paused s) (g_parts s) (g_conc s) (g_psends s) v (g_accepted s) (g_done s) (g_runs s) (g_ddone s) (g_trace s) (g_from s) (h_open s) (g_rj s).
+  mkSt (s_max s) (s_discov s) (s_queue s) (s_pending s) (s_active s) (s_resp s) (s_nframes s) (s_pdisc s) (s_rdisc s) (m_out s) (m_dout s) (m_script s) (m_dscript s) (m_nrun s) (h_next s) (h_ndid s) (h_paused s) (g_parts s) (g_conc s) (g_psends s) v (g_accepted s) (g_done s) (g_runs s) (g_ddone s) (g_trace s) (g_from s) (h_open s) (g_rj s) (h_destroying s).
 Definition set_g_accepted (v : list N) (s : st) : st :=
-  mkSt (s_max s) (s_discov s) (s_queue s) (s_pending s) (s_active s) (s_resp s) (s_nframes s) (s_pdisc s) (s_rdisc s) (m_out s) (m_dout s) (m_script s) (m_dscript s) (m_nrun s) (h_next s) (h_ndid s) (h_paused s) (g_parts s) (g_conc s) (g_psends s) (g_fatal s) v (g_done s) (g_runs s) (g_ddone s) (g_trace s) (g_from s) (h_open s) (g_rj s).
+  mkSt (s_max s) (s_discov s) (s_queue s) (s_pending s) (s_active s) (s_resp s) (s_nframes s) (s_pdisc s) (s_rdisc s) (m_out s) (m_dout s) (m_script s) (m_dscript s) (m_nrun s) (h_next s) (h_ndid s) (h_paused s) (g_parts s) (g_conc s) (g_psends s) (g_fatal s) v (g_done s) (g_runs s) (g_ddone s) (g_trace s) (g_from s) (h_open s) (g_rj s) (h_destroying s).
 Definition set_g_done (v : list comp) (s : st) : st :=
-  mkSt (s_max s) (s_discov s) (s_queue s) (s_pending s) (s_active s) (s_resp s) (s_nframes s) (s_pdisc s) (s_rdisc s) (m_out s) (m_dout s) (m_script s) (m_dscript s) (m_nrun s) (h_next s) (h_ndid s) (h_paused s) (g_parts s) (g_conc s) (g_psends s) (g_fatal s) (g_accepted s) v (g_runs s) (g_ddone s) (g_trace s) (g_from s) (h_open s) (g_rj s).
+  mkSt (s_max s) (s_discov s) (s_queue s) (s_pending s) (s_active s) (s_resp s) (s_nframes s) (s_pdisc s) (s_rdisc s) (m_out s) (m_dout s) (m_script s) (m_dscript s) (m_nrun s) (h_next s) (h_ndid s) (h_paused s) (g_parts s) (g_conc s) (g_psends s) (g_fatal s) (g_accepted s) v (g_runs s) (g_ddone s) (g_trace s) (g_from s) (h_open s) (g_rj s) (h_destroying s).
 Definition set_g_runs (v : list (N * bool * list (bool * N))) (s : st) : st :=
-  mkSt (s_max s) (s_discov s) (s_queue s) (s_pending s) (s_active s) (s_resp s) (s_nframes s) (s_pdisc s) (s_rdisc s) (m_out s) (m_dout s) (m_script s) (m_dscript s) (m_nrun s) (h_next s) (h_ndid s) (h_paused s) (g_parts s) (g_conc s) (g_psends s) (g_fatal s) (g_accepted s) (g_done s) v (g_ddone s) (g_trace s) (g_from s) (h_open s) (g_rj s).
+  mkSt (s_max s) (s_discov s) (s_queue s) (s_pending s) (s_active s) (s_resp s) (s_nframes s) (s_pdisc s) (s_rdisc s) (m_out s) (m_dout s) (m_script s) (m_dscript s) (m_nrun s) (h_next s) (h_ndid s) (h_paused s) (g_parts s) (g_conc s) (g_psends s) (g_fatal s) (g_accepted s) (g_done s) v (g_ddone s) (g_trace s) (g_from s) (h_open s) (g_rj s) (h_destroying s).
 Definition set_g_ddone (v : list (N * N)) (s : st) : st :=
-  mkSt (s_max s) (s_discov s) (s_queue s) (s_pending s) (s_active s) (s_resp s) (s_nframes s) (s_pdisc s) (s_rdisc s) (m_out s) (m_dout s) (m_script s) (m_dscript s) (m_nrun s) (h_next s) (h_ndid s) (h_paused s) (g_parts s) (g_conc s) (g_psends s) (g_fatal s) (g_accepted s) (g_done s) (g_runs s) v (g_trace s) (g_from s) (h_open s) (g_rj s).
+  mkSt (s_max s) (s_discov s) (s_queue s) (s_pending s) (s_active s) (s_resp s) (s_nframes s) (s_pdisc s) (s_rdisc s) (m_out s) (m_dout s) (m_script s) (m_dscript s) (m_nrun s) (h_next s) (h_ndid s) (h_paused s) (g_parts s) (g_conc s) (g_psends s) (g_fatal s) (g_accepted s) (g_done s) (g_runs s) v (g_trace s) (g_from s) (h_open s) (g_rj s) (h_destroying s).
 Definition set_g_trace (v : list tev) (s : st) : st :=
-  mkSt (s_max s) (s_discov s) (s_queue s) (s_pending s) (s_active s) (s_resp s) (s_nframes s) (s_pdisc s) (s_rdisc s) (m_out s) (m_dout s) (m_script s) (m_dscript s) (m_nrun s) (h_next s) (h_ndid s) (h_paused s) (g_parts s) (g_conc s) (g_psends s) (g_fatal s) (g_accepted s) (g_done s) (g_runs s) (g_ddone s) v (g_from s) (h_open s) (g_rj s).
+  mkSt (s_max s) (s_discov s) (s_queue s) (s_pending s) (s_active s) (s_resp s) (s_nframes s) (s_pdisc s) (s_rdisc s) (m_out s) (m_dout s) (m_script s) (m_dscript s) (m_nrun s) (h_next s) (h_ndid s) (h_paused s) (g_parts s) (g_conc s) (g_psends s) (g_fatal s) (g_accepted s) (g_done s) (g_runs s) (g_ddone s) v (g_from s) (h_open s) (g_rj s) (h_destroying s).
 Definition set_g_from (v : list N) (s : st) : st :=
-  mkSt (s_max s) (s_discov s) (s_queue s) (s_pending s) (s_active s) (s_resp s) (s_nframes s) (s_pdisc s) (s_rdisc s) (m_out s) (m_dout s) (m_script s) (m_dscript s) (m_nrun s) (h_next s) (h_ndid s) (h_paused s) (g_parts s) (g_conc s) (g_psends s) (g_fatal s) (g_accepted s) (g_done s) (g_runs s) (g_ddone s) (g_trace s) v (h_open s) (g_rj s).
+  mkSt (s_max s) (s_discov s) (s_queue s) (s_pending s) (s_active s) (s_resp s) (s_nframes s) (s_pdisc s) (s_rdisc s) (m_out s) (m_dout s) (m_script s) (m_dscript s) (m_nrun s) (h_next s) (h_ndid s) (h_paused s) (g_parts s) (g_conc s) (g_psends s) (g_fatal s) (g_accepted s) (g_done s) (g_runs s) (g_ddone s) (g_trace s) v (h_open s) (g_rj s) (h_destroying s).
 Definition set_h_open (v : N) (s : st) : st :=
-  mkSt (s_max s) (s_discov s) (s_queue s) (s_pending s) (s_active s) (s_resp s) (s_nframes s) (s_pdisc s) (s_rdisc s) (m_out s) (m_dout s) (m_script s) (m_dscript s) (m_nrun s) (h_next s) (h_ndid s) (h_paused s) (g_parts s) (g_conc s) (g_psends s) (g_fatal s) (g_accepted s) (g_done s) (g_runs s) (g_ddone s) (g_trace s) (g_from s) v (g_rj s).
+  mkSt (s_max s) (s_discov s) (s_queue s) (s_pending s) (s_active s) (s_resp s) (s_nframes s) (s_pdisc s) (s_rdisc s) (m_out s) (m_dout s) (m_script s) (m_dscript s) (m_nrun s) (h_next s) (h_ndid s) (h_paused s) (g_parts s) (g_conc s) (g_psends s) (g_fatal s) (g_accepted s) (g_done s) (g_runs s) (g_ddone s) (g_trace s) (g_from s) v (g_rj s) (h_destroying s).
 Definition set_g_rj (v : N) (s : st) : st :=
-  mkSt (s_max s) (s_discov s) (s_queue s) (s_pending s) (s_active s) (s_resp s) (s_nframes s) (s_pdisc s) (s_rdisc s) (m_out s) (m_dout s) (m_script s) (m_dscript s) (m_nrun s) (h_next s) (h_ndid s) (h_paused s) (g_parts s) (g_conc s) (g_psends s) (g_fatal s) (g_accepted s) (g_done s) (g_runs s) (g_ddone s) (g_trace s) (g_from s) (h_open s) v.
+  mkSt (s_max s) (s_discov s) (s_queue s) (s_pending s) (s_active s) (s_resp s) (s_nframes s) (s_pdisc s) (s_rdisc s) (m_out s) (m_dout s) (m_script s) (m_dscript s) (m_nrun s) (h_next s) (h_ndid s) (h_paused s) (g_parts s) (g_conc s) (g_psends s) (g_fatal s) (g_accepted s) (g_done s) (g_runs s) (g_ddone s) (g_trace s) (g_from s) (h_open s) v (h_destroying s).
+Definition set_h_destroying (v : bool) (s : st) : st :=
+  mkSt (s_max s) (s_discov s) (s_queue s) (s_pending s) (s_active s) (s_resp s) (s_nframes s) (s_pdisc s) (s_rdisc s) (m_out s) (m_dout s) (m_script s) (m_dscript s) (m_nrun s) (h_next s) (h_ndid s) (h_paused s) (g_parts s) (g_conc s) (g_psends s) (g_fatal s) (g_accepted s) (g_done s) (g_runs s) (g_ddone s) (g_trace s) (g_from s) (h_open s) (g_rj s) v.
 
 Definition K_ANSWERED : N := 0.
 Definition K_REJECTED : N := 1.
@@ -156,7 +160,7 @@ Definition K_DESTROYED : N := 2.
 Definition is_nil {A} (l : list A) : bool := match l with [] => true | _ => false end.
 
 Definition init (max : N) (discov : bool) (ms : list mitem) (ds : list bool) : st :=
-  mkSt max discov [] false true None 0 [] [] [] [] ms ds 0 0 0 false [] 0 0 false [] [] [] [] [] [] 0 0.
+  mkSt max discov [] false true None 0 [] [] [] [] ms ds 0 0 0 false [] 0 0 false [] [] [] [] [] [] 0 0 false.
 
 (* RDMResponse::CombineResponses *)
 Definition combine (a b : resp) : option resp :=
@@ -323,22 +327,39 @@ Definition do_op (o : op) (s : st) (ag : list frame) : st * list frame :=
       let s := set_g_accepted (g_accepted s ++ [id]) s in
       take_next s ag
   | Disc full cb =>
-    if s_discov s then
+    (* during ~QueueingRDMController the derived part of the object is gone: not a legal call *)
+    if s_discov s && negb (h_destroying s) then
       let did := h_ndid s in
       let s := set_h_ndid (did + 1) s in
       let s := set_s_pdisc (s_pdisc s ++ [(full, did, cb)]) s in
       take_next s ag
     else (s, ag)
   | Deliver r =>
+    (* the underlying controller does not answer a controller that is being destroyed *)
+    if h_destroying s then (s, ag) else
     match m_out s with
     | [] => (s, ag)
     | i :: rest => handle i (tag i r) (set_m_out rest s) ag
     end
   | DeliverDisc =>
+    if h_destroying s then (s, ag) else
     match m_dout s with
     | [] => (s, ag)
     | run :: rest => disc_complete run (set_m_dout rest s) ag
     end
+  end.
+
+(* one iteration of the destructor's loop (fix 04: the request is popped before its callback runs) *)
+Definition destroy_next (s : st) (ag : list frame) : st * list frame :=
+  match s_queue s with
+  | [] => (s, ag)
+  | (id, cb) :: rest =>
+    let c := mkComp id K_DESTROYED (mkReply RDM_FAILED_TO_SEND None 0) [] [] in
+    let s := set_s_queue rest s in
+    let s := set_h_open (h_open s - 1) s in
+    let s := set_g_done (g_done s ++ [c]) s in
+    let s := set_g_trace (g_trace s ++ [TComp c]) s in
+    (s, map FOp cb ++ FDestroy :: ag)
   end.
 
 Definition step (s : st) (f : frame) (ag : list frame) : st * list frame :=
@@ -348,6 +369,7 @@ Definition step (s : st) (f : frame) (ag : list frame) : st * list frame :=
   | FDiscLog did run =>
     (set_g_trace (g_trace s ++ [TDiscCb did run]) (set_g_ddone (g_ddone s ++ [(did, run)]) s), ag)
   | FDiscDone => take_next (set_s_rdisc [] s) ag
+  | FDestroy => if h_destroying s then destroy_next s ag else (s, ag)   (* only the destructor pushes it *)
   end.
 
 (* None = OutOfFuel *)
@@ -373,7 +395,7 @@ Fixpoint wop (o : op) : nat :=
   end%nat.
 Fixpoint wops (l : list op) : nat := match l with [] => 0 | x :: r => wop x + wops r end%nat.
 Definition wframe (f : frame) : nat :=
-  match f with FOp o => wop o | FTakeNext => 1 | FDiscLog _ _ => 1 | FDiscDone => 2 end%nat.
+  match f with FOp o => wop o | FTakeNext => 1 | FDiscLog _ _ => 1 | FDiscDone => 2 | FDestroy => 1 end%nat.
 Fixpoint wag (l : list frame) : nat := match l with [] => 0 | x :: r => wframe x + wag r end%nat.
 Fixpoint wq (l : list (N * list op)) : nat :=
   match l with [] => 0 | (_, cb) :: r => 2 + wops cb + wq r end%nat.
@@ -399,18 +421,21 @@ Fixpoint exec_ops (s : st) (l : list op) : option st :=
   | o :: r => match exec_op s o with None => None | Some s' => exec_ops s' r end
   end.
 
-(* ~QueueingRDMController: every queued request (the one in flight included) is completed with
-   RDM_FAILED_TO_SEND, in queue order.  (Callbacks must not call into the dying controller.) *)
-Definition destroy (s : st) : st :=
-  let cs := map (fun e => mkComp (fst e) K_DESTROYED (mkReply RDM_FAILED_TO_SEND None 0) [] [])
-                (s_queue s) in
-  set_g_trace (map TComp cs) (set_g_done (g_done s ++ cs) (set_s_queue [] s)).
+(* ~QueueingRDMController (with fix 04): sending is blocked (m_rdm_request_pending = true), then every
+   queued request, the one in flight included, is popped and completed with RDM_FAILED_TO_SEND, in
+   queue order.  The completion callbacks are live: what they submit is queued (or rejected) and
+   failed by the same loop; Pause/Resume only flip m_active; discovery calls and answers of the
+   underlying controller are not executed during destruction. *)
+Definition start_destroy (s : st) : st :=
+  set_g_trace [] (set_h_destroying true (set_s_pending true s)).
+Definition destroy_run (s : st) : option st :=
+  run (measure (start_destroy s) [FDestroy]) (start_destroy s) [FDestroy].
 
 Definition run_history (max : N) (discov : bool) (ms : list mitem) (ds : list bool) (h : list op)
   : option st :=
   match exec_ops (init max discov ms ds) h with
   | None => None
-  | Some s => Some (destroy s)
+  | Some s => destroy_run s
   end.
 
 (* ---- instance checkers on the logs (printed by the driver; proved constant in Proofs) ---- *)
